@@ -1,9 +1,11 @@
 import Driver.History
+import Driver.Copy
 /-! Model driver: one request per input line, first token selects the layer. -/
 
 def dispatch (line : String) : List String :=
   match (line.trimAscii.toString.splitOn " ").filter (· ≠ "") with
   | "history" :: rest => Driver.History.handle rest
+  | "copy" :: rest => Driver.Copy.handle rest
   | [] => []
   | _ => ["bad-layer"]
 
